@@ -44,7 +44,16 @@ def run(ctx, rep):
         rep.check(cl == [O["padding_byte"]] and ops == ["Eq"], "R12.1", "R12.1|padding|byte", "padding bytes are exactly 0xFF", p, "take_while closure tests %s %s" % (ops, cl))
         out = ev.collect_ifs(p, [Sym("P")])
         conds = [ckey(o["cond"]) for o in out if "cond" in o]
-        ok = len(conds) == 1 and conds[0].startswith("Gt(sym(call:alloc::vec::Vec::<T, A>::len(") and conds[0].endswith(",%s)" % hex(O["padding_max"]))
+        IT = "core::iter::traits::iterator::Iterator::"
+        run = "sym(call:%scollect(sym(call:%stake_while(sym(call:%srev(sym(call:core::slice::<impl [T]>::iter(sym(P))))),('closure','%s::{closure#0}',{2: Sym(P)})))))" % (IT, IT, IT, p)
+        ok = len(conds) == 1 and conds[0] == "Gt(sym(call:alloc::vec::Vec::<T, A>::len(%s)),%s)" % (run, hex(O["padding_max"]))
+        try:
+            whole = vkey(ev.call_fn(p, [Sym("P")]))
+        except Exception as e:  # noqa
+            whole = "unevaluable %r" % (e,)
+        rep.check(whole.startswith("sym(ite(Gt(") and whole.endswith(",Result::Ok(0=%s)))" % run), "R12.1", "R12.1|padding|whole_payload",
+                  "the measured run is payload.iter().rev().take_while(==0xFF) over the whole payload, and that run is what Ok returns", p,
+                  "extract_payload_ff_padding does not return the trailing 0xFF run of the whole payload: %s" % whole[-420:])
         rep.check(ok, "R12.1", "R12.1|padding|limit", "error iff the 0xFF run is longer than %d bytes" % O["padding_max"], p, "padding limit condition: %s" % [c[:40] + "…" + c[-12:] for c in conds])
         tb = ev.tb(p)
         first_if = next((n for i, n in tb.walk() if n["k"] == "If"), None)
@@ -66,7 +75,10 @@ def run(ctx, rep):
         rep.check(clo is not None and lits(clo) == [0] and [n["op"] for i, n in clo.walk() if n["k"] == "Binary"] == ["Eq"], "R12.1", "R12.1|probe|zero", "probe bytes must all be 0x00", p)
         out = ev.collect_ifs(p, [Sym("P")])
         conds = [ckey(o["cond"]) for o in out if "cond" in o]
-        ok = len(conds) == 1 and conds[0].startswith("Eq(") and conds[0].endswith(",%s)" % hex(O["slot_bytes"] - O["word_bytes"]))
+        IT = "core::iter::traits::iterator::Iterator::"
+        probe = "sym(call:%scount(sym(call:%stake_while(sym(call:%stake(sym(call:%sskip(sym(call:core::slice::<impl [T]>::iter(sym(P))),%s)),%s)),('closure','%s::{closure#0}',{2: Sym(P)})))))" % (
+            IT, IT, IT, IT, hex(O["word_bytes"]), hex(O["slot_bytes"] - O["word_bytes"]), p)
+        ok = len(conds) == 1 and conds[0] == "Eq(%s,%s)" % (probe, hex(O["slot_bytes"] - O["word_bytes"]))
         tb = ev.tb(p)
         fi = next((n for i, n in tb.walk() if n["k"] == "If"), None)
         then_v = [x.get("vname") for _, x in tb.walk(fi["then"]) if x["k"] == "Adt"] if fi else []
